@@ -2,6 +2,7 @@ package chaingen
 
 import (
 	"crypto/ecdsa"
+	"fmt"
 	"math/big"
 
 	"github.com/ethereum/go-ethereum/crypto"
@@ -269,4 +270,29 @@ func ExecOf(b *block.Block, receipts tx.Receipts, stateRoot thor.Bytes32) *ExecI
 		ex.Receipts = append(ex.Receipts, r)
 	}
 	return ex
+}
+
+// WithUnusedReserved re-encodes a legacy transaction with a second, non-empty entry in its reserved list (which the
+// validator must reject: "unused reserved slot") and signs it again.
+func WithUnusedReserved(t *tx.Transaction, key *ecdsa.PrivateKey) (*tx.Transaction, error) {
+	enc, err := rlp.EncodeToBytes(t)
+	if err != nil {
+		return nil, err
+	}
+	var items []rlp.RawValue
+	if err := rlp.DecodeBytes(enc, &items); err != nil || len(items) != 10 {
+		return nil, fmt.Errorf("not a legacy tx encoding (%d items): %v", len(items), err)
+	}
+	res, _ := rlp.EncodeToBytes([]rlp.RawValue{{0x80}, {0x01}})
+	items[8] = res
+	items[9] = rlp.RawValue{0x80}
+	enc2, err := rlp.EncodeToBytes(items)
+	if err != nil {
+		return nil, err
+	}
+	var t2 tx.Transaction
+	if err := rlp.DecodeBytes(enc2, &t2); err != nil {
+		return nil, err
+	}
+	return tx.Sign(&t2, key)
 }
